@@ -57,7 +57,10 @@ impl LdpcDecoder for ScriptedDec {
         }
         // randomised delay (perturbs the arrival order of worker results)
         let mut r = Rng::new(self.seed, id);
-        std::thread::sleep(Duration::from_micros(r.below(300) as u64));
+        // seed u64::MAX = no delay at all: the workers then produce results far faster than the collector (which sends a report per frame) consumes them
+        if self.seed != u64::MAX {
+            std::thread::sleep(Duration::from_micros(r.below(300) as u64));
+        }
         let mut cw: Vec<u8> = llrs.iter().map(|&x| (x <= 0.0) as u8).collect();
         let nerr = ((id % 4) as usize).min(self.k);
         for b in cw.iter_mut().take(nerr) {
@@ -151,7 +154,8 @@ pub fn run(ctx: &mut Ctx, _replay: Option<&[String]>) {
                     let inter: Option<isize> = *rng.pick(&[None, Some(3), Some(-3)]);
                     let fac = Scripted {
                         counter: Arc::new(AtomicU64::new(0)), log: Arc::new(Mutex::new(Vec::new())), log_limit: 0,
-                        panic_every: 0, built: Arc::new(AtomicU64::new(0)), seed: ctx.seed * 1000 + rep as u64, seq: false,
+                        panic_every: 0, built: Arc::new(AtomicU64::new(0)),
+                        seed: if rep % 2 == 1 { u64::MAX } else { ctx.seed * 1000 + rep as u64 }, seq: false,
                     };
                     let (tx, rx) = mpsc::channel();
                     let h2 = h.clone();
